@@ -1,19 +1,19 @@
 SPECIFICATION Spec
 CONSTANTS
-  NV = 2
+  NV = 3
   StabV = {}
   NP = 2
   UseQueue = TRUE
   SkipQueue = FALSE
   Faults = FALSE
-  MaxC = 9
+  MaxC = 11
   RepStatuses = {"SUCCESSFUL", "FAILED"}
   Atomic = TRUE
   ReportFine = FALSE
   AutoApprove = TRUE
   Opts = {}
   ReportOnce = TRUE
-  MaxLevel = 10
+  MaxLevel = 13
   EmitJson = FALSE
   AtomicPush = TRUE
   FixSelect = TRUE
